@@ -1117,7 +1117,10 @@ class AttrParser(BaseParser):
                 self.Delimiter.NONE,
                 lambda: self._parse_dense_array_float(element_type),
             )
-            res = DenseArrayBase.from_list(element_type, values)
+            try:
+                res = DenseArrayBase.from_list(element_type, values)
+            except OverflowError:
+                self.raise_error(f"Float value is too large for type {element_type}")
 
         self.parse_characters(">", " in dense array")
 
@@ -1497,9 +1500,11 @@ class AttrParser(BaseParser):
         if isinstance(type, AnyFloat):
             if is_hexadecimal_token:
                 assert isinstance(value, int)
-                raw = value.to_bytes(type.compile_time_size, "little")
-                return FloatAttr(next(type.iter_unpack(raw)), type)
-            return FloatAttr(float(value), type)
+                return FloatAttr(self.float_from_bit_pattern(value, type), type)
+            try:
+                return FloatAttr(float(value), type)
+            except OverflowError:
+                self.raise_error(f"Float value is too large for type {type}")
 
         if isa(type, IntegerType | IndexType):
             if isinstance(value, float):
